@@ -65,7 +65,7 @@ Definition icorr (md : option (list N)) (ib ia : inst) : bool :=
       end
     | _ => false
     end
-  else inst_eqb ib ia.
+  else negb (is_jump ib) && inst_eqb ib ia.
 
 Fixpoint icorrs (md : option (list N)) (fb ga : list inst) : bool :=
   match fb, ga with
@@ -113,6 +113,13 @@ Fixpoint thread (f : func) (fuel : nat) (p t h : N) : option N :=
   | S n => match empty_jmp f t with Some t' => thread f n t t' h | None => None end
   end.
 
+(* a jump that has a target in every state *)
+Definition jump_total (ins : inst) : bool :=
+  if String.eqb (i_op ins) "jmp" then match i_args ins with [OLab _] => true | _ => false end
+  else if String.eqb (i_op ins) "jnz" then match i_args ins with [_; OLab _; OLab _] => true | _ => false end
+  else if String.eqb (i_op ins) "djmp" then negb (is_nil (labels_of (i_args ins)))
+  else false.
+
 (* all targets of the jump `lst` of block b lead (through jump-only blocks) to b'; result: the blocks b' is entered from *)
 Fixpoint joint_preds (f : func) (b : N) (ls : list N) (b' : N) : option (list N) :=
   match ls with
@@ -131,7 +138,7 @@ Fixpoint seg_ok (f : func) (md : option (list N)) (b : N) (cs : list N) (ga : li
   | b' :: cs' =>
     match split_last fb with
     | Some (pre, lst) =>
-      is_jump lst && negb (is_nil (labels_of (i_args lst))) &&
+      jump_total lst &&
       match joint_preds f b (labels_of (i_args lst)) b' with
       | Some ps => forall2b (icorr md) pre (firstn (List.length pre) ga) &&
                    seg_ok f (Some ps) b' cs' (skipn (List.length pre) ga)
